@@ -9,6 +9,7 @@ import (
 	"encoding/json"
 	"fmt"
 	"sort"
+	"sync"
 	"time"
 
 	dbm "github.com/cometbft/cometbft-db"
@@ -128,6 +129,9 @@ type Chain struct {
 	Height int64
 	Time   time.Time
 
+	// mu orders BeginBlock / Commit (write side) against concurrent Simulate calls (read side), as a node's
+	// gas-estimation endpoint runs handlers on other goroutines while a block executes
+	mu       sync.RWMutex
 	block    storetypes.CacheMultiStore // block-level branch (nil outside a block)
 	inBlock  bool
 	LastHash []byte
@@ -338,10 +342,12 @@ func (c *Chain) BeginBlock(t time.Time) (panicked interface{}) {
 	if c.inBlock {
 		panic("BeginBlock inside a block")
 	}
+	c.mu.Lock()
 	c.Height++
 	c.Time = t
 	c.block = c.CMS.CacheMultiStore()
 	c.inBlock = true
+	c.mu.Unlock()
 	bb := c.block.CacheMultiStore()
 	ctx := c.newCtx(bb)
 	func() {
@@ -428,6 +434,24 @@ func (c *Chain) Deliver(msg sdk.Msg) (res Result) {
 	return res
 }
 
+// Simulate runs msg on a throw-away branch of the last COMMITTED state, from any goroutine, the way a
+// node's Simulate endpoint does while a block is being executed. Nothing is written; the outcome is ignored.
+func (c *Chain) Simulate(msg sdk.Msg) {
+	c.mu.RLock()
+	defer c.mu.RUnlock()
+	if safeValidateBasic(msg) != nil {
+		return
+	}
+	h := c.MsgRouter.Handler(msg)
+	if h == nil {
+		return
+	}
+	ctx := sdk.NewContext(c.CMS.CacheMultiStore(), c.header(), false, log.NewNopLogger()).
+		WithGasMeter(sdk.NewGasMeter(c.Opts.GasLimit)).WithEventManager(sdk.NewEventManager())
+	defer func() { _ = recover() }()
+	_, _ = h(ctx, msg)
+}
+
 func safeValidateBasic(msg sdk.Msg) (err error) {
 	defer func() {
 		if r := recover(); r != nil {
@@ -442,10 +466,12 @@ func (c *Chain) Commit() []byte {
 	if !c.inBlock {
 		panic("Commit outside a block")
 	}
+	c.mu.Lock()
 	c.block.Write()
 	c.block = nil
 	c.inBlock = false
 	id := c.CMS.Commit()
+	c.mu.Unlock()
 	if id.Version != c.Height {
 		panic(fmt.Sprintf("height mismatch: store %d chain %d", id.Version, c.Height))
 	}
